@@ -81,7 +81,15 @@ def impl_main(mode, fin, fout):
                         viol.append(["invalid pattern accepted", st])
                 log.append(["set", cfg()])
             elif k == "render":
-                log.append(["render", [fmt(True), fmt(False)]])
+                # the top-level rendering is taken from ONE DecayChain object that lives as long as the program (M -> a b):
+                # what it shows must be the format in force now, not the one in force when it was first rendered
+                try:
+                    top = CHAIN[0].to_string()
+                except Exception:
+                    top = None
+                if top is not None and fmt(True) is not None and top != fmt(True):
+                    viol.append(["rendering of a chain object does not follow the format in force", top, fmt(True)])
+                log.append(["render", [top, fmt(False)]])
             elif k == "raise":
                 raise RuntimeError("leave by exception")
             elif k == "with":
@@ -105,11 +113,14 @@ def impl_main(mode, fin, fout):
                     pass
                 log.append(["try", cfg()])
 
+    from decaylanguage import DecayChain, DecayMode
+    CHAIN = [None]
     cases = json.loads(Path(fin).read_text())
     out = []
     for c in cases:
         if c["kind"] == "prog":
             DescriptorFormat.config = {"decay_pattern": DEFAULT[0], "sub_decay_pattern": DEFAULT[1]}
+            CHAIN[0] = DecayChain("M", {"M": DecayMode(1, "a b")})
             log, viol = [], []
             try:
                 run([["try", c["prog"]]], [], log, viol)
